@@ -3,7 +3,8 @@ LEVEL = "exploration"
 RULE = ("finite-domain enumeration over fixed-point coordinates (1e-7 degree), one axis at a time, every case distinct by construction: "
         "(lat) latitudes at a fixed longitude, (lon) longitudes at a fixed latitude, (grid) every row and column of a boundary/half-degree grid. "
         "quick = all values within +-10000 steps of each special value (+-90, +-85.0511288, +-78, 0 / +-180, +-90, 0) + every 37th latitude / 97th longitude; "
-        "thorough = additionally every fixed-point value of each axis in contiguous shards overlapping by one value. One evaluation = one location "
+        "thorough = additionally every one of the 1800000001 fixed-point latitudes in contiguous shards overlapping by one value (all consecutive pairs), "
+        "and for longitudes +-10^6 consecutive values around each special value + every 11th value. One evaluation = one location "
         "pushed through lonlat_to_mercator, MercatorProjection, mercator_to_lonlat, lat_to_y_with_tan and Tile(zoom, Location) + Tile(zoom, Coordinates) "
         "for every zoom 0..30, with the point oracles and the pair oracles against its predecessor. Non-trivial = a latitude on the fast-formula path "
         "(two different formulas are compared) or a point whose zoom-30 tile differs from its predecessor's (a tile boundary was crossed, so "
